@@ -168,3 +168,13 @@ class TieWatch(object):
             del self.disc.rhs
         except AttributeError:
             pass
+
+
+def nonfinite_operator(num_desc):
+    """the space operator returned a non-finite residual on admissible cell data: with a first-order reconstruction the face states
+    are the cell states, so this is a failure of the code; with extrapolating reconstructions the face states may have left the
+    admissible set (negative pressure), which is outside the domain of the properties -> skipped and counted."""
+    from vf.runner import Skip, Violation
+    if cases.num_is_first_order(num_desc):
+        raise Violation("operator-finite", "the space operator is not finite on admissible data with a first-order reconstruction")
+    raise Skip("inadmissible_reconstruction (extrapolated face state outside the admissible set)")
